@@ -34,7 +34,13 @@ def optsets(tier, label):
 def one(text, o, comments=False):
     """returns (category, message, t1)"""
     d0 = impl.loads(text, include_comments=comments)
-    t1 = impl.dumps(copy.deepcopy(d0), **o)
+    dsame = copy.deepcopy(d0)
+    t1 = impl.dumps(dsame, **o)
+    if not o["separate_complex_types"]:
+        # the same dictionary object and options, printed again: the same text
+        t1b = impl.dumps(dsame, **o)
+        if t1b != t1:
+            return "nondeterministic", "printing the same dictionary object a second time gives different text: %r -> %r" % first_diff(t1, t1b), t1
     d1 = impl.loads(t1, include_comments=comments)
     snap = D.typed(D.strip_hidden(d1))
     t2 = impl.dumps(copy.deepcopy(d1), **o)
